@@ -218,3 +218,26 @@ func VerifC05_WireCorruption(ver, mt, nFOpts, fpMode, nFRM, pos int) {
 	verifAssertKnown("C05-mhdr-rfu-bits-not-authenticated", pos == 0, valid == (carried == want), "receiver: validation succeeds exactly when the MIC carried by the received bytes is the specification's MIC over the received bytes")
 	verifReach("done")
 }
+
+// C03: a frame value without FPort but with FRMPayload bytes (the encoder refuses it) is either transformed or
+// refused by PHYPayload.EncryptFRMPayload - never "success" with the bytes left in clear.
+func VerifC03_PHYFRMNoPort(mt, n int) {
+	mtype := c03MType(mt)
+	addr := DevAddr(verifNondet4("devaddr"))
+	fcnt := verifNondetU32("fcnt")
+	frm := verifNondetBytes("frm", n)
+	key := verifNondetKey("key")
+	p := PHYPayload{MHDR: MHDR{MType: mtype, Major: LoRaWANR1}, MACPayload: &MACPayload{FHDR: FHDR{DevAddr: addr, FCnt: fcnt}, FRMPayload: []Payload{&DataPayload{Bytes: verifCopy(frm)}}}}
+	err := p.EncryptFRMPayload(AES128Key(key))
+	if err != nil {
+		verifReach("refused")
+		return
+	}
+	mp := p.MACPayload.(*MACPayload)
+	want := specFRMCrypt(key, specIsUplink(mtype), addr, fcnt, frm)
+	verifAssert(len(mp.FRMPayload) == 1, "PHYPayload.EncryptFRMPayload: one payload stored")
+	dp, ok := mp.FRMPayload[0].(*DataPayload)
+	verifAssert(ok, "PHYPayload.EncryptFRMPayload: stored as DataPayload")
+	verifAssert(verifBytesEq(dp.Bytes, want), "PHYPayload.EncryptFRMPayload: success means the stored bytes are the spec ciphertext (never the plaintext)")
+	verifReach("done")
+}
